@@ -380,28 +380,41 @@ func ruleRearmedTimerIsAbsolute(c *Ctx, r *Report) {
 				if !ok {
 					continue
 				}
+				// the switch case a block sits in: the nearest dominating `state == K` whose true
+				// side leads there
+				caseOf := func(p *ssa.Parameter, at *ssa.BasicBlock) {
+					for d := at; d != nil; d = d.Idom() {
+						id := d.Idom()
+						if id == nil {
+							break
+						}
+						iff, ok := id.Instrs[len(id.Instrs)-1].(*ssa.If)
+						if !ok || id.Succs[0] != d {
+							continue
+						}
+						if bo, ok := iff.Cond.(*ssa.BinOp); ok && bo.Op == token.EQL {
+							if k, isK := constInt(bo.Y); isK {
+								slots = append(slots, slot{fn, paramIndex(p), k})
+								break
+							}
+						}
+					}
+				}
+				if phi, isPhi := call.Call.Value.(*ssa.Phi); isPhi && isHandlerType(phi.Type()) {
+					// the switch selects the handler and one call runs it: each case is the block
+					// its handler comes from
+					for i, e := range phi.Edges {
+						if p, isP := e.(*ssa.Parameter); isP && i < len(phi.Block().Preds) {
+							caseOf(p, phi.Block().Preds[i])
+						}
+					}
+					continue
+				}
 				p, isP := call.Call.Value.(*ssa.Parameter)
 				if !isP || !isHandlerType(p.Type()) {
 					continue
 				}
-				// the switch case the call sits in: the nearest dominating `state == K` whose true
-				// side leads here
-				for d := b; d != nil; d = d.Idom() {
-					id := d.Idom()
-					if id == nil {
-						break
-					}
-					iff, ok := id.Instrs[len(id.Instrs)-1].(*ssa.If)
-					if !ok || id.Succs[0] != d {
-						continue
-					}
-					if bo, ok := iff.Cond.(*ssa.BinOp); ok && bo.Op == token.EQL {
-						if k, isK := constInt(bo.Y); isK {
-							slots = append(slots, slot{fn, paramIndex(p), k})
-							break
-						}
-					}
-				}
+				caseOf(p, b)
 			}
 		}
 	}
@@ -633,7 +646,8 @@ func (c *Ctx) windowCoverage(g *ssa.Function) (why string, decided bool) {
 	}
 	// the exported position: the load of RemoteSequenceNumber[..], possibly clamped to a constant
 	var top ssa.Value
-	isPos := func(v ssa.Value) bool {
+	var isPos func(v ssa.Value) bool
+	isPos = func(v ssa.Value) bool {
 		ls := c.Origins(v, 0)
 		if len(ls) == 0 {
 			ls = []ssa.Value{v}
@@ -646,6 +660,23 @@ func (c *Ctx) windowCoverage(g *ssa.Function) (why string, decided bool) {
 			}
 			if _, isK := l.(*ssa.Const); isK {
 				continue
+			}
+			// the smaller of the position and a constant (the clamp written with min)
+			if cl, ok := l.(*ssa.Call); ok && calleeName(&cl.Call) == "builtin:min" {
+				all := true
+				for _, a := range cl.Call.Args {
+					if _, isK := a.(*ssa.Const); isK {
+						continue
+					}
+					if isPos(a) {
+						fromLoad = true
+						continue
+					}
+					all = false
+				}
+				if all {
+					continue
+				}
 			}
 			return false
 		}
